@@ -175,8 +175,14 @@ def check(plan, ctx):
     src = ctx.path("in.geojson")
     with open(src, "w", encoding="utf-8") as f:
         json.dump(doc, f, ensure_ascii=False)
+    # history: another collection with other top-level members and properties was read earlier in this process
+    other = ctx.path("other.geojson")
+    with open(other, "w", encoding="utf-8") as f:
+        json.dump({"type": "FeatureCollection", "crs": {"x": 1}, "zzz": True, "features": [
+            {"type": "Feature", "properties": {"only_there": 1}, "geometry": None}]}, f)
     buf = io.StringIO()
     with contextlib.redirect_stdout(buf):
+        di.GeoJSON.read(other)
         data = ctx.call("GeoJSON.read", di.GeoJSON.read, src)
     if not isinstance(data, di.GeoJSON):
         raise Violation("GeoJSON.read did not return a GeoJSON")
